@@ -52,6 +52,14 @@ impl Cache {
 
     pub fn close(&self) {}
 
+    /// drops the cached processes and the registered collections (harness teardown)
+    #[cfg(feature = "verif")]
+    pub fn verif_teardown(&self) {
+        self.procs.invalidate_all();
+        self.procs.run_pending_tasks();
+        self.store.verif_teardown();
+    }
+
     #[instrument]
     pub fn push_proc(&self, proc: &Arc<Process>) {
         self.push_proc_pri(proc, true);
